@@ -72,6 +72,11 @@ CHECKS = {
             "For every equation within the bound and every choice of unknown z3 decides for ALL real 3-vectors and scalar values that the returned equation differs from the input expression by exactly the isolated non-zero coefficient (or sign, with reduction off) and that refusals are exactly the requests for non-terms.",
             "Trusted: z3 nlsat, vlib/vecsem.py. solve_for_scalar rests on sympy.solve whose answers are judged; equations SymPy cannot solve are inconclusive.",
             "3.16"),
+    "C17": ("S", "other",
+            "real code_str executed on enumerated canonical trees and on every catalogue member in documentation source form; rendering read back by an independent precedence parser; value equality decided by z3 (QF_NRA) over all positive leaf values",
+            "For every canonical tree within the bound and every documented catalogue formula z3 decides that the value of the rendering, read under ordinary precedence with name-aware tokenisation, equals the value of the original for ALL positive real values of the leaves (opaque heads and float literals are named leaves).",
+            "Trusted: z3 nlsat, vlib/exprparse.py (the reader), SymPy arithmetic when rebuilding the read expression. Renderings outside the reader's grammar are inconclusive, never passed. Fully unevaluated synthetic trees are outside the property's quantifier (observation in DESIGN.md).",
+            "3.17"),
 }
 
 NOT_APPLICABLE = {
